@@ -351,6 +351,29 @@ func Run(c *core.Ctx) {
 			}
 		}
 	}
+	// routing of a mux with a path agrees with the full pattern: a name is routed to the (only) handler exactly
+	// when the pattern path.<handler pattern> matches it - in particular not when the name merely starts with
+	// the characters of the path
+	for _, mp := range []string{"a", "a.b", "ab"} {
+		for _, hp := range []string{"$x", "b.$x", "$x.a"} {
+			full := mp + "." + hp
+			var mux *res.Mux
+			if core.Catch(func() { mux = res.NewMux(mp); mux.Handle(hp) }) != nil {
+				continue
+			}
+			for _, n := range core.AllStrings([]string{"a", "b", ".", "$"}, 5) {
+				if n == "" {
+					continue
+				}
+				matched := false
+				if pv := core.Catch(func() { matched = mux.GetHandler(n) != nil }); pv != nil {
+					continue
+				}
+				recs = append(recs, rec{"op": "matches", "ps": full, "ns": n, "p": core.Chars(full), "n": core.Chars(n), "got": matched})
+				nid++
+			}
+		}
+	}
 	// the pattern a handler is told it was registered with (OnRegister: what store handlers build resource ids
 	// from) is the pattern it is routed by - also when it was registered on a mux before that was mounted
 	for _, local := range []string{"item.$id", "*.item.$id", "$a.*.$id", "*.*.$id.x", "$id.*", "x.$id.*.$b", "*", "$id", "a.>", "*.$id.>"} {
